@@ -87,6 +87,11 @@ def ops_table(mpc, T):
     op('if_else_list', 3, lambda a, b, c: mpc.if_else(a < b, [a, c], [c, b]), lambda a, b, c: [a, c] if a < b else [c, b], 2)
     op('if_swap_list', 3, lambda a, b, c: [x for p in mpc.if_swap(a < b, [a, c], [b, b]) for x in p],
        lambda a, b, c: [b, b, a, c] if a < b else [a, c, b, b], 2)
+    # the condition is used again after the selection (it must still be the whole number 0/1 it is marked to be)
+    op('if_swap_list_cond', 3, lambda a, b, c: (lambda k: [x for p in mpc.if_swap(k, [a, c], [b, b]) for x in p] + [k, k * c])(a < b),
+       lambda a, b, c: ([b, b, a, c] if a < b else [a, c, b, b]) + [Fr(int(a < b)), c * int(a < b)], 2)
+    op('if_else_list_cond', 3, lambda a, b, c: (lambda k: mpc.if_else(k, [a, c], [c, b]) + [k, k * c])(a < b),
+       lambda a, b, c: ([a, c] if a < b else [c, b]) + [Fr(int(a < b)), c * int(a < b)], 2)
     op('sum2', 2, lambda a, b: [mpc.sum([a, b])], lambda a, b: [a + b], 0)
     op('sum3', 3, lambda a, b, c: [mpc.sum([a, b, c])], lambda a, b, c: [a + b + c], 0)
     op('prod2', 2, lambda a, b: [mpc.prod([a, b])], lambda a, b: [a * b], 2)
@@ -204,12 +209,19 @@ def run_sp(job):
                 seam.begin('seeded' if mode == 'seeded2' else mode, job['seed'] + (mode == 'seeded2'), None)
                 detail = dict(engine='sp', name=name, tup=list(tup), mode=mode, seed=job['seed'])
                 try:
-                    rs = fn(*[mk(T, a) for a in operands])
+                    args = [mk(T, a) for a in operands]
+                    marks = [a.integral for a in args]
+                    rs = fn(*args)
                     res = [(r.integral, sp.opened(mpc, r)) for r in rs]
+                    after = [(a.integral, sp.opened(mpc, a)) for a in args]
                 except Exception as exc:
                     part.case(key=None)
                     part.violation(f'C03:{name}:exception', f'[sp] {name}{[(float(v), m) for v, m in operands]} raised {exc!r}', detail)
                     continue
+                for j, (mark, a) in enumerate(zip(marks, operands)):
+                    if after[j][0] != mark or Fr(after[j][1]) != val(a):
+                        part.violation(f'C03:{name}:operand-changed', f'[sp] {name}{[(float(v), m) for v, m in operands]}: operand {j} is '
+                                       f'{after[j][1]} (marked integral: {after[j][0]}) after the operation, it was {float(val(a))} ({mark})', detail)
                 judge(part, f'sp/{mode}', name, operands, res, ref, tol, detail)
     return part
 
